@@ -10,6 +10,7 @@ Bad == {i \in DOMAIN Recs :
                  /\ r.found_commit /\ r.found_abort /\ ~r.found_inconsistent
             ELSE r.unique = r.tlc_distinct                                    \* exactly the reachable states
                  /\ r.states >= r.unique
+                 /\ ("tlc_generated" \in DOMAIN r => r.states = r.tlc_generated)   \* ... and exactly as many generated
                  /\ r.found_commit /\ r.found_abort /\ ~r.found_inconsistent}
 ASSUME JsonSerialize(IOEnv.OUT, [n |-> Len(Recs), bad |-> Bad])
 =============================================================================
